@@ -60,13 +60,15 @@ class BuildResult:
 # recorded reference tables of that target (translator/reference/), which its theorems do not speak about.
 #   TextTables  : actions.py, DiffFormatter, DiffParser            (text script format)
 #   PatcherProg : Patcher._handle_* as DSL programs, Patcher.patch / nsmap / handle_action pinned
-#   xl_main     : main.py entirely, formatter constructors / WS_* flags  (Gen/Flags, CliPlumbing, EntryPoints)
+#   xl_main     : main.py entirely, formatter constructors / WS_* flags  (Gen/Flags, CliPlumbing, EntryPoints);
+#                 sub-target xl_main.flags: the WS_TEXT branch of XMLFormatter._make_diff_tags (in Gen/Flags only)
 #   xl_state    : state handling of Differ (clear, set_trees, match prologue, diff guard, set loops), Patcher.patch,
 #                 the formatters' format() and main.diff_trees / patch_tree   (Gen/StateShape)
 TIED_THROUGH = {
     "TextTables": {"C02", "C15"},
     "PatcherProg": {"C01", "C02", "C04", "C05", "C06", "C18"},
     "xl_main": {"C02", "C13", "C14", "C15"},
+    "xl_main.flags": {"C09", "C10", "C14"},      # the WS_TEXT branch of XMLFormatter._make_diff_tags (text normalisation)
     "xl_state": {"C01", "C03", "C05", "C06", "C07", "C13", "C17"},
 }
 LAST_TRANSLATION = {"failed": {}}
